@@ -67,6 +67,12 @@ type Explorer struct {
 	StepLimit                  int64
 	stepsThisPath              int64
 	Start                      time.Time
+	// sharding: a case may be split over several workers; shard k of Shards keeps the paths whose
+	// first ShardDepth unforced decisions hash to k (paths with fewer decisions are run by every
+	// shard and counted by shard 0)
+	Shard, Shards, ShardDepth int
+	OtherShard                 int
+	nfCount, shardID           int
 }
 
 var lastStack string
@@ -119,6 +125,7 @@ func (e *Explorer) runOnce(body func()) {
 	e.regions = e.regions[:0]
 	e.inputSeq = 0
 	e.stepsThisPath = 0
+	e.nfCount, e.shardID = 0, 0
 	panicSeen = false
 	callStack = callStack[:0]
 	e.S.Push()
@@ -132,6 +139,8 @@ func (e *Explorer) runOnce(body func()) {
 			case pathAbort:
 				if r.reason == "infeasible" {
 					e.Infeasible++
+				} else if r.reason == "other-shard" {
+					e.OtherShard++
 				} else {
 					e.Aborted++
 					if e.HangIsViolation && strings.HasPrefix(r.reason, "limit:") {
@@ -162,6 +171,9 @@ func (e *Explorer) runOnce(body func()) {
 				e.Unsupported[key]++
 			}
 			return
+		}
+		if e.Shards > 1 && e.nfCount < e.ShardDepth && e.Shard != 0 {
+			return // a short path: every shard runs it, shard 0 counts it
 		}
 		e.Paths++
 		if len(e.SamplePaths) < 3 && len(e.inputs) > 0 {
@@ -218,6 +230,7 @@ func (e *Explorer) choose(n int, cons func(i int) *Term) int {
 		e.S.Assert(cons(d.choice))
 		e.learn(cons(d.choice))
 		e.trace = append(e.trace, d)
+		e.shardStep(d)
 		return d.choice
 	}
 	if len(e.trace) >= e.MaxDepth {
@@ -251,7 +264,24 @@ func (e *Explorer) choose(n int, cons func(i int) *Term) int {
 	e.S.Assert(cons(first))
 	e.learn(cons(first))
 	e.trace = append(e.trace, d)
+	e.shardStep(d)
 	return first
+}
+
+// shardStep: after the ShardDepth-th unforced decision of a path, drop the path unless it belongs to
+// this worker's shard.
+func (e *Explorer) shardStep(d decision) {
+	if e.Shards <= 1 || d.forced {
+		return
+	}
+	e.nfCount++
+	if e.nfCount > e.ShardDepth {
+		return
+	}
+	e.shardID = (e.shardID*31 + d.choice + 1) % e.Shards
+	if e.nfCount == e.ShardDepth && e.shardID != e.Shard {
+		panic(pathAbort{"other-shard"})
+	}
 }
 
 // branch decides a symbolic boolean.
